@@ -2,6 +2,8 @@
 import FfcxModel.LNodes.Wire
 import FfcxModel.LNodes.Static
 import FfcxModel.LNodes.Scoped
+import FfcxModel.LNodes.Threads
+import FfcxModel.LNodes.Free
 
 namespace Ffcx.Driver
 open Ffcx Ffcx.LNodes
@@ -24,6 +26,30 @@ def handleMentions (args : List Sexp) : Except String Sexp := do
     let ns ← names.mapM Sexp.asAtom
     return .list (.atom "ok" :: ns.map (fun n => Sexp.ofBool (mentionsS n s)))
   | _ => throw "mentions: expected (mentions stmt name…)"
+
+/-- `(threads stmt)` → `(ok bool)`: footprint disjointness of two calls with private locals/tensor -/
+def handleThreads (args : List Sexp) : Except String Sexp := do
+  match args with
+  | [stmt] => return .list [.atom "ok", Sexp.ofBool (threadsDisjoint (← readStmt stmt))]
+  | _ => throw "threads: expected (threads stmt)"
+
+/-- `(hop t p…)` → `(ok bool)`: may statement `t` hop over the statements `p…`? -/
+def handleHop (args : List Sexp) : Except String Sexp := do
+  match args with
+  | t :: ps =>
+    let t ← readStmt t
+    let ps ← ps.mapM readStmt
+    return .list [.atom "ok", Sexp.ofBool (disjointB [t] ps)]
+  | _ => throw "hop: expected (hop t p…)"
+
+/-- `(hopmod t p…)` → `(ok bool)`: as `hop`, with `t`'s own loop indices renamed apart -/
+def handleHopMod (args : List Sexp) : Except String Sexp := do
+  match args with
+  | t :: ps =>
+    let t ← readStmt t
+    let ps ← ps.mapM readStmt
+    return .list [.atom "ok", Sexp.ofBool (hopModB t ps)]
+  | _ => throw "hopmod: expected (hopmod t p…)"
 
 /-- `(scoped stmt)` → `(ok)` | `(err undeclared n)` | `(err redeclared n)` -/
 def handleScoped (args : List Sexp) : Except String Sexp := do
